@@ -19,7 +19,7 @@ STATUS = {
  "C08": ("roundtrip over the expression ladder (WL derivations), fmt injective; literals: string_literal_roundtrip / string_literal_lexes / bytes_literal_roundtrip (formatter escaping read back by the lexer, Syntax/Literals), apostrophe_must_stay_bare witness", "parse, fmt, round trip (incl. rejections); fmtStr / fmtBytes = text written by the real formatter (every byte value); scanStr / scanBytes = real lexer on arbitrary literal texts", "AST equality on corpus + generators (generated types in every position, nested match arms, 12-level nesting)"),
  "C09": ("fmt idempotent on the ladder; CLI decision logic; runFiles read-only; writer_hygiene (Tool/Writer: indentation, line breaks and blank lines add no tab and no trailing whitespace for any operation sequence), indenting_newline_leaves_trailing_blanks witness", "CLI single file (formatted / unformatted / unparsable + near-formatted variants: no final newline, extra blank lines at the end, trailing space, leading blank line, CRLF) + directory; real FormatWriter (hook) = model on generated operation sequences", "idempotence, check consistency (--check reports what fmt would rewrite), hygiene; generated types in every position (one-element tuple types, function types), nested match arms"),
  "C10": ("8 invariance theorems over all states/continuations; reindent under monotone maps; eof_blank_tail_invisible / eof_comment_tail_invisible (blanks or a comment after the last line break, any width)", "layout model vs real lexer kinds", "AST equality under 11 edit kinds (incl. blanks after the last line break; inserted comments with multi-byte text); text cut at the end of seeded logical lines parses the same with and without its final newline"),
- "C11": ("get_line_info slices on boundaries, EOF, indents_balance (for every input the layout layer emits as many DEDENTs as INDENTs; invariant bal_step over the indentation stack, popTo_spec: the push(0) safety net is unreachable), C19 ranges (partial scope)", "format_error rendering incl. long lines", "whole pipeline fuzz with watchdog, incl. parseable programs with odd declaration graphs (generated extends cycles / self loops / unknown bases x trait adoption x uses that walk the graph) and arity inputs (built-in methods and functions with 0-4 arguments, tuple unpacking with the wrong number of names)"),
+ "C11": ("get_line_info slices on boundaries, EOF, indents_balance + never_more_dedents (for every input the layout layer emits as many DEDENTs as INDENTs; invariant bal_step over the indentation stack, popTo_spec: the push(0) safety net is unreachable), C19 ranges (partial scope)", "format_error rendering incl. long lines", "whole pipeline fuzz with watchdog, incl. parseable programs with odd declaration graphs (generated extends cycles / self loops / unknown bases x trait adoption x uses that walk the graph) and arity inputs (built-in methods and functions with 0-4 arguments, tuple unpacking with the wrong number of names)"),
  "C12": ("manifest_order_independent; module tree (Tool/ModuleTree): children_order_independent, children_nodup, carrier_order_independent, never_file_and_modrs, old_generator_wrote_both witness", "manifest repeated with fresh hash maps; generate_nested on generated path sets (shared prefixes, module = directory), three fresh hash maps each: files written + `pub mod` lines per directory = model", "3 processes × environments, in-process twice; error-provoking programs (several unknown keywords / wrong arguments / duplicate declarations), a broken dependency checked through a relative path from different directories, `incan test -v` with seven fixtures in four processes"),
  "C13": ("table_complete / table_sound / legal_keywords_rawable over tables REGENERATED from the source on every run, emitted_identifier_valid_partial, emit_injective, rename_preserves_binding, renamed_use_resolves_to_same_binder / renamed_free_stays_free / renamed_scope_nodup / renamed_program_tokens_valid (scope chains with shadowing, any depth), self_type_name_unemittable (Props/C13, Sem/Names, Generated/Keywords)", "is_keyword on every entry + near misses; emitTok = spelling of a local and a struct field in the emitted Rust; one compiled program per (binding position, name) over 38 positions (payload variants constructed / matched / bound, keyword arguments of functions and methods, closures with one and two parameters, field chains, consts in consts …) incl. reflection (__fields__, __class_name__, JSON keys); sibling names (k, k_, _k, r_k, K) bound side by side", "renamed program behaves like the plain-named one; sibling bindings keep their own values"),
  "C14": ("resolvers_agree_partial + 3 witnesses, private_rejected, exported_iff, private_decl_rejected, work-list lemmas", "both resolvers on real trees (incl. deep entries, multi-level parents, pairs of imports in one file in both orders), visibility verdicts (plain and `as`-aliased imports: alias fresh, alias = another pub name, alias = a private name; bare use of a declaration that the import does not name), export computation on generated modules imported from the entry directory and from nested packages (pkg.inner, pkg.sub.deep)", "agreement, visibility, missing/cycle"),
